@@ -563,3 +563,42 @@ func Replay(path string) (rf ReplayFile, verr error, err error) {
 
 // Sharded reports whether enumeration position i belongs to this shard.
 func Sharded(i int) bool { return i%NShards() == Shard() }
+
+// ---------------------------------------------------------------- watchdog
+
+// Watchdog runs fn in a goroutine and waits at most d. When fn does not return it
+// reports whether the goroutine dump looks like a deadlock inside go-ipa (every
+// goroutine with a go-ipa frame is parked on a channel operation or a WaitGroup).
+func Watchdog(d time.Duration, fn func()) (returned bool, deadlock bool, dump string, perr error) {
+	done := make(chan error, 1)
+	go func() { done <- Try(fn) }()
+	select {
+	case err := <-done:
+		return true, false, "", err
+	case <-time.After(d):
+	}
+	buf := make([]byte, 1<<22)
+	buf = buf[:runtime.Stack(buf, true)]
+	dump = string(buf)
+	parked, busy := 0, 0
+	for _, g := range strings.Split(dump, "\n\n") {
+		if !strings.Contains(g, "github.com/crate-crypto/go-ipa") {
+			continue
+		}
+		head := g
+		if i := strings.IndexByte(g, '\n'); i >= 0 {
+			head = g[:i]
+		}
+		switch {
+		case strings.Contains(head, "chan send"), strings.Contains(head, "chan receive"), strings.Contains(head, "semacquire"),
+			strings.Contains(head, "select"), strings.Contains(head, "sync.WaitGroup"), strings.Contains(head, "sync.Mutex"):
+			parked++
+		default:
+			busy++
+		}
+	}
+	if len(dump) > 6000 {
+		dump = dump[:6000]
+	}
+	return false, parked > 0 && busy == 0, dump, nil
+}
